@@ -73,7 +73,7 @@ def gen_flow(seed: int, n: int) -> List[Scn]:
         A = rng.choice([0, 1, 1, 2, 2, 3, 4])
         P = rng.choice([0, 0, 1, 2, 3, 4])
         N = rng.choice([0, 0, 0, 1, 2, 3])
-        W = rng.choice([-1, -1, 2, 5])
+        W = rng.choice([-1, -1, 2, 5, 0])
         M = rng.randint(1, 8)
         cfg = {"A": A, "P": P, "N": N, "W": W, "ack": rng.choice(["default", "when_received", "when_executed"]),
                "ackable": rng.random() < 0.75,
@@ -232,6 +232,8 @@ def gen_pipe(seed: int, n: int) -> List[Scn]:
                "backend_suspend": rng.random() < 0.3, "mws": mws, "propagate": rng.random() < 0.6,
                "msgs": _msgs(rng, M, ["valid"] * 9 + ["malformed"], ["ta0", "ta0", "ts0"], instant_p=0.3,
                              outcomes=["ret", "exc", "base", "nores", "cerr", "falsy"], timeout_p=0.3, savefail_p=0.3, ackfail_p=0.1, dup_p=0.25)}
+        if not cfg["ack_async"] and len(mws) % 2 == 0:
+            cfg["ack_future"] = True          # ack hands back a Future that completes when the scenario opens its gate
         steps: List[Any] = [["arrive", M]]
         for _ in range(rng.randint(0, 10)):
             r = rng.random()
@@ -378,7 +380,7 @@ def gen_stop_sweep(seed: int, n: int) -> List[Scn]:
         A = rng.choice([0, 1, 2, 3])
         P = rng.choice([0, 1, 2])
         N = rng.choice([0, 0, 1, 2, 3])
-        W = rng.choice([-1, 2, 5])
+        W = rng.choice([-1, 2, 5, 0])
         M = rng.randint(2, 6)
         cfg = {"A": A, "P": P, "N": N, "W": W, "msgs": [{"task": "ta0"} for _ in range(M)]}
         if rng.random() < 0.3:
@@ -388,6 +390,10 @@ def gen_stop_sweep(seed: int, n: int) -> List[Scn]:
             cfg["ack"] = rng.choice(["default", "when_executed", "when_received"])
         elif rng.random() < 0.2:
             cfg["mws"] = [{rng.choice(["post", "onerr", "pre"]): "raise"}]
+        elif rng.random() < 0.35:
+            # acknowledgement that takes time (a Future the broker hands back): shutdown must wait for it as well
+            cfg["ack_future"] = True
+            cfg["ack"] = rng.choice(["default", "when_executed", "when_received", "when_saved"])
         base = _flow_steps(rng, cfg, rng.randint(3, 8), ["ret", "exc"], midflight=False, stop_p=0.0)
         endless = rng.random() < 0.4
         for pos in range(len(base) + 1):
@@ -401,5 +407,7 @@ def gen_stop_sweep(seed: int, n: int) -> List[Scn]:
                 steps += [["adv_rel", max(W, 0) + 8]]
             else:
                 steps += [["adv_rel", 2], ["fin_all", "ret"], ["adv_rel", max(W, 0) + 6]]
+            if cfg.get("ack_future"):
+                steps += [["gate_all"], ["adv_rel", 4]] if rng.random() < 0.7 else []
             out.append({"cfg": cfg, "steps": steps, "family": "stop_sweep"})
     return out[:n]
